@@ -4,6 +4,8 @@ observe(case) dispatches on case["fam"]:
 
   "close"  one call of a closeness/equality helper
            -> {"k": "true"|"false"|"pass"|"raise"|"vec"|"other", "exc": class name, "v": [bool, ...]}
+  "hist"   a history of helper calls over a pool of operand objects that are reused
+           -> {"steps": [{"o": outcome as for "close", "snap": [{"x", "u", "dt", "base"} per pool object]}, ...]}
   "deco"   a history of calls of ONE function decorated once with accepts/returns
            -> {"steps": [{"k": "ok"|"raise", "exc", "called": bool, "same": bool}, ...], "build": ""|exception class}
 
@@ -72,17 +74,14 @@ def _is_bool(x):
     return isinstance(x, (bool, _U["np"].bool_))
 
 
-def observe_close(c):
+def _call_helper(h, a, d, rt, at):
     np = _U["np"]
-    a = _operand(c["ka"], c["a"], c["au"])
-    d = _operand(c["kd"], c["d"], c["du"])
-    h = c["helper"]
     f = _U["helpers"][h]
     try:
         if h in ("allclose_units", "assert_allclose_units"):
-            res = f(a, d, _tol(c["rt"]), _tol(c["at"]))
+            res = f(a, d, _tol(rt), _tol(at))
         elif h in ("np.allclose", "np.isclose"):
-            res = f(a, d, rtol=_tol(c["rt"]), atol=_tol(c["at"]))
+            res = f(a, d, rtol=_tol(rt), atol=_tol(at))
         else:
             res = f(a, d)
     except Exception as e:  # noqa: BLE001 - the observation is the exception
@@ -97,6 +96,12 @@ def observe_close(c):
     if not _is_bool(res):
         return {"k": "other", "exc": type(res).__name__, "v": []}
     return {"k": "true" if res else "false", "exc": "", "v": []}
+
+
+def observe_close(c):
+    a = _operand(c["ka"], c["a"], c["au"])
+    d = _operand(c["kd"], c["d"], c["du"])
+    return _call_helper(c["helper"], a, d, c["rt"], c["at"])
 
 
 # ---------------------------------------------------------------------------
@@ -229,7 +234,73 @@ def observe_deco(c):
     return {"steps": steps, "build": ""}
 
 
+# ---------------------------------------------------------------------------
+# histories of helper calls over reused operand objects
+# ---------------------------------------------------------------------------
+
+_PAD = (7.0, 9.0)
+_HUGE = [2147483647, 1]
+
+
+def _rat(x):
+    """exact rational of a float the library holds (dyadic registry: exact), or a sentinel no model value equals"""
+    import math
+
+    x = float(x)
+    if math.isnan(x) or math.isinf(x):
+        return _HUGE
+    f = Fraction(x)
+    if abs(f.numerator) >= 2**31 - 1 or f.denominator >= 2**31 - 1:
+        return _HUGE
+    return [f.numerator, f.denominator]
+
+
+def _make_obj(ob):
+    """-> (object handed to the helpers, the array that owns its memory)"""
+    np, U = _U["np"], _U["units"]
+    vals = [_f(x) for x in ob["x"]]
+    dt = np.dtype(ob["dt"])
+    if ob["k"] == "q":
+        q = _U["uq"](dt.type(vals[0]), U[ob["u"]])
+        return q, q
+    raw = np.array(([_PAD[0]] + vals + [_PAD[1]]) if ob["view"] else vals, dtype=dt)
+    full = raw if ob["k"] == "ba" else _U["ua"](raw, U[ob["u"]])
+    obj = full[1 : 1 + len(vals)] if ob["view"] else full
+    return obj, full
+
+
+def _snap(obj, full):
+    np = _U["np"]
+    return {
+        "x": [_rat(v) for v in np.asarray(obj).ravel()],
+        "u": str(obj.units) if hasattr(obj, "units") else "bare",
+        "dt": str(np.asarray(obj).dtype),
+        "base": [_rat(v) for v in np.asarray(full).ravel()],
+    }
+
+
+def observe_hist(c):
+    U = _U["units"]
+    objs = [_make_obj(ob) for ob in c["pool"]]
+    out = []
+    for st, cc in zip(c["steps"], c["c"]):
+        a = objs[st["a"] - 1][0]
+        d = objs[st["d"] - 1][0]
+        try:
+            if st["rea"]:
+                a = a.to(U[st["rea"]])
+            if st["red"]:
+                d = d.to(U[st["red"]])
+            o = _call_helper(st["helper"], a, d, st["rt"], st["at"])
+        except Exception as e:  # noqa: BLE001
+            o = {"k": "raise", "exc": type(e).__name__, "v": []}
+        out.append({"o": o, "snap": [_snap(ob, full) for ob, full in objs]})
+    return {"steps": out}
+
+
 def observe(case):
     if case.get("fam") == "deco":
         return observe_deco(case)
+    if case.get("fam") == "hist":
+        return observe_hist(case)
     return observe_close(case)
